@@ -434,7 +434,15 @@ randombytes_internal_random_stir(void)
         global.initialized = 1;
     }
 #ifdef HAVE_GETPID
-    global.pid = getpid();
+    {
+        /* every thread stirs its own stream: only store the pid when it changed,
+         * so that concurrent first uses do not write to the shared state */
+        const pid_t pid = getpid();
+
+        if (global.pid != pid) {
+            global.pid = pid;
+        }
+    }
 #endif
 
 #ifndef _WIN32
